@@ -16,9 +16,13 @@
    Calls may be nested anywhere in expressions and conditions (arguments containing calls, recursion in operand position).
    A function defined at the top level may CAPTURE DATA VARIABLES of the module and read them (by reference: it sees
    the module's later assignments), directly and through the functions it calls.
-   NOT yet proved: function literals inside blocks / functions, `modify` writes through a captured variable,
-   first-class function values, calls in the upper bound of a from loop with a NAMED counter or in a step (lower bounds, and upper bounds of loops
-   with a hidden counter, may contain calls).
+   A SECOND proved fragment (Compile/ClosFrag.v .. ClosTop.v, `in_fragment2`, pinned as C07_closure_programs_correct_partial
+   in Props/C07.v) covers first-class function values: function literals inside functions and blocks (factories), `modify`
+   writes through captured cells, functions returned / stored / passed as arguments and called through variables -- with
+   the statements assignment, modify, print, expression statement, if, while, from (named fresh counter, step 1), return.
+   `in_fragment` = in_fragment1 || in_fragment2; fragment_correct holds on both.
+   NOT yet proved: calls in the upper bound of a from loop with a NAMED counter or in a step; break / continue / else /
+   op-assignment / assert / self-calls / anonymous or colliding loop counters TOGETHER WITH the closure features of fragment 2.
    Those are covered by the T1/T2/T3 correspondences on every run.
 
    What else is proved and pinned here:
@@ -29,7 +33,7 @@
    The statement-level agreement is established on every run by the correspondences T1 (compiler ==
    Compile/Compile.v), T2 (interpreter == Vm/Model.v, per instruction) and T3 (run == Lang/Eval.v). *)
 From MS Require Import Vm.Model Verify.Check Verify.Sound Compile.Compile Lang.Eval Compile.ExprBase Compile.ExprSim.
-From MS Require Import Compile.StmtMach Compile.StmtRel Compile.StmtFrag Compile.StmtSim Compile.StmtFun Compile.StmtMod Compile.StmtExamples Compile.StmtFragB.
+From MS Require Import Compile.StmtMach Compile.StmtRel Compile.StmtFrag Compile.StmtSim Compile.StmtFun Compile.StmtMod Compile.StmtExamples Compile.StmtFragB Compile.ClosTop.
 
 Check frames_safe.
 Theorem C01_frames_balanced_partial : forall rc p, checked p ->
@@ -130,13 +134,20 @@ Theorem C01_fragment_correct_partial : forall (path : str) (p : source), in_frag
      vm_outcome_ok (snd (run fuel p)) (snd (fst (execute fuel' (cprogram path p) (s_module_fn path))))).
 Proof. exact fragment_correct. Qed.
 Print Assumptions C01_fragment_correct_partial.
-Check in_fragment_sound.
+Check in_fragment_sound. Check closure_module_correct.
 Example C01_nv_in_fragment : in_fragment nvp nv_s6 = true /\ in_fragment nvp nv_s4 = true /\ in_fragment nvp nv_s1f = true /\
   in_fragment nvp nv_s7 = true /\ in_fragment nvp nv_s8 = true /\ in_fragment nvp nv_s9 = true /\ in_fragment nvp nv_s10 = true.
 Proof. vm_compute. repeat split. Qed.
-(* ... and it rejects what is outside: a `modify` write through a captured variable *)
+(* ... and it rejects what is outside both proved fragments: `break` (fragment 1 only) in a function that also writes through
+   a captured variable (fragment 2 only) *)
 Example C01_nv_not_in_fragment :
-  in_fragment nvp [SAssign [120%N] (EInt 1); SAssign [102%N] (EFn [] [SModify [120%N] (EInt 2); SReturn (Some (EVar [120%N]))]); SPrint (ECall (EVar [102%N]) [])] = false.
+  in_fragment nvp [SAssign [120%N] (EInt 1);
+                   SAssign [102%N] (EFn [] [SModify [120%N] (EInt 2); SWhile (EBool true) [SBreak]; SReturn (Some (EVar [120%N]))]);
+                   SPrint (ECall (EVar [102%N]) [])] = false.
+Proof. vm_compute. reflexivity. Qed.
+(* a write through a captured variable alone is inside (fragment 2) *)
+Example C01_nv_modify_in_fragment :
+  in_fragment nvp [SAssign [120%N] (EInt 1); SAssign [102%N] (EFn [] [SModify [120%N] (EInt 2); SReturn (Some (EVar [120%N]))]); SPrint (ECall (EVar [102%N]) [])] = true.
 Proof. vm_compute. reflexivity. Qed.
 Check fun_sim.
 Check gcall_ok.
